@@ -27,6 +27,9 @@ const c18SDL = `type User {
   tags: [String]
   nums: [Int]
   flag: Boolean
+  nick: String @default(string: "none")
+  level: Int @default(int: 40)
+  huge: Float
   books: [Book]
 }
 type Book {
@@ -45,6 +48,8 @@ type Emp {
   grade: Int
   boss: Emp @relation(name: "line")
   reports: [Emp] @relation(name: "line")
+  mentor: Emp @relation(name: "guide")
+  mentees: [Emp] @relation(name: "guide")
 }
 `
 
@@ -96,6 +101,36 @@ func genC18(seed int64, tier string) *Plan {
 	for i := 0; i < p.Cfg["upd"]; i++ {
 		p.Steps = append(p.Steps, Step{K: "upd", A: r.IntN(7), B: r.IntN(64), C: r.IntN(64)})
 	}
+	// own stream of choices: fields with a default value (absent / a value / an explicit null), a float beyond
+	// the range, and updates that make two self references, reference cycles, documents with equal content
+	rd := newRng(seed, 181)
+	for i := range p.Steps {
+		if p.Steps[i].K != "user" {
+			continue
+		}
+		var extra []string
+		switch rd.IntN(3) {
+		case 1:
+			extra = append(extra, `"nick": "x`+fmt.Sprint(rd.IntN(3))+`"`)
+		case 2:
+			extra = append(extra, `"nick": null`)
+		}
+		switch rd.IntN(3) {
+		case 1:
+			extra = append(extra, `"level": `+fmt.Sprint(rd.IntN(100)))
+		case 2:
+			extra = append(extra, `"level": null`)
+		}
+		if chance(rd, 4) {
+			extra = append(extra, `"huge": 1e999`)
+		} else if chance(rd, 30) {
+			extra = append(extra, `"huge": 1.7976931348623157e308`)
+		}
+		p.Steps[i].S = strings.Join(extra, ", ")
+	}
+	for i, n := 0, pick(rd, []int{0, 0, 1, 2, 3}); i < n; i++ {
+		p.Steps = append(p.Steps, Step{K: "upd", A: 7 + rd.IntN(4), B: rd.IntN(64), C: rd.IntN(64)})
+	}
 	p.Steps = append(p.Steps, Step{K: "import", D: r.IntN(64)})
 	return p
 }
@@ -106,10 +141,10 @@ type c18Doc map[string]any
 func c18QueryAll(n *SimNode) (map[string]map[string]map[string]any, error) {
 	out := map[string]map[string]map[string]any{}
 	sels := map[string]string{
-		"User": "_docID name age big ratio when data meta tags nums flag",
+		"User": "_docID name age big ratio when data meta tags nums flag nick level huge",
 		"Book": "_docID title rating author_id",
 		"Node": "_docID label weight parent_id",
-		"Emp":  "_docID name grade boss_id",
+		"Emp":  "_docID name grade boss_id mentor_id",
 	}
 	for col, sel := range sels {
 		data, errs := n.GQL(fmt.Sprintf("query { %s { %s } }", col, sel))
@@ -122,6 +157,37 @@ func c18QueryAll(n *SimNode) (map[string]map[string]map[string]any, error) {
 		}
 	}
 	return out, nil
+}
+
+// c18HasCycle: some document reaches itself over the relation fields through at least one other document.
+func c18HasCycle(all map[string]map[string]map[string]any) bool {
+	next := map[string][]string{}
+	for _, docs := range all {
+		for id, row := range docs {
+			for f, v := range row {
+				if strings.HasSuffix(f, "_id") && v != nil && fmt.Sprint(v) != id {
+					next[id] = append(next[id], fmt.Sprint(v))
+				}
+			}
+		}
+	}
+	for start := range next {
+		seen := map[string]bool{}
+		stack := append([]string{}, next[start]...)
+		for len(stack) > 0 {
+			x := stack[len(stack)-1]
+			stack = stack[:len(stack)-1]
+			if x == start {
+				return true
+			}
+			if seen[x] {
+				continue
+			}
+			seen[x] = true
+			stack = append(stack, next[x]...)
+		}
+	}
+	return false
 }
 
 func parseExport(path string) (map[string][]map[string]any, error) {
@@ -157,6 +223,23 @@ func runC18(p *Plan, res *Result) {
 		return
 	}
 	var userIDs, nodeIDs, bookIDs, empIDs []string
+	// situations with a recorded finding of their own are named in the class of what is reported about the
+	// fidelity of such a run (the atomicity clauses are not affected)
+	nonFinite := false
+	ctxTag := ""
+	orderDependent := false
+	defer func() {
+		for _, v := range res.Viols {
+			switch v.Clause {
+			case "export-failed", "import-failed", "value-changed", "document-missing", "id-mapping-wrong", "document-count", "re-export-differs", "missing-id-mapping":
+				if nonFinite && v.Clause == "export-failed" {
+					v.Class += "/non-finite-float"
+				} else if ctxTag != "" {
+					v.Class += ctxTag
+				}
+			}
+		}
+	}()
 	for i, st := range p.Steps {
 		setRandStep(fmt.Sprintf("step|%d", i))
 		switch st.K {
@@ -171,6 +254,12 @@ func runC18(p *Plan, res *Result) {
 					continue
 				}
 				parts = append(parts, fmt.Sprintf("%q: %s", f, v))
+			}
+			if st.S != "" {
+				parts = append(parts, st.S)
+				if strings.Contains(st.S, "1e999") {
+					nonFinite = true
+				}
 			}
 			js := "{" + strings.Join(parts, ", ") + "}"
 			doc, err := client.NewDocFromJSON([]byte(js), users.Definition())
@@ -238,6 +327,43 @@ func runC18(p *Plan, res *Result) {
 			case 5:
 				if len(empIDs) > 0 {
 					q = fmt.Sprintf(`mutation { update_Emp(docID: %q, input: {grade: %d}) { _docID } }`, empIDs[mod(st.B, len(empIDs))], 100+st.C)
+				}
+			case 7:
+				// an employee who is their own boss and their own mentor
+				if len(empIDs) > 0 {
+					id := empIDs[mod(st.B, len(empIDs))]
+					if _, errs := s.GQL(fmt.Sprintf(`mutation { update_Emp(docID: %q, input: {boss: %q, mentor: %q}) { _docID } }`, id, id, id)); len(errs) == 0 {
+						res.Stats["two_self_references"]++
+					}
+				}
+			case 8:
+				// any employee as the boss (or mentor) of any other: cycles over several documents
+				if len(empIDs) > 1 {
+					f := "boss"
+					if st.C&1 == 1 {
+						f = "mentor"
+					}
+					q = fmt.Sprintf(`mutation { update_Emp(docID: %q, input: {%s: %q}) { _docID } }`, empIDs[mod(st.B, len(empIDs))], f, empIDs[mod(st.C>>1, len(empIDs))])
+				}
+			case 9:
+				// an employee takes the name and grade of another one: with equal relations the two have equal content
+				if len(empIDs) > 1 {
+					x, y := empIDs[mod(st.B, len(empIDs))], empIDs[mod(st.C, len(empIDs))]
+					if x != y {
+						data, errs := s.GQL(fmt.Sprintf(`query { Emp(docID: %q) { name grade } }`, y))
+						if rs := rows(data, "Emp"); len(errs) == 0 && len(rs) == 1 {
+							q = fmt.Sprintf(`mutation { update_Emp(docID: %q, input: {name: %s, grade: %s}) { _docID } }`, x, canon(rs[0]["name"]), canon(rs[0]["grade"]))
+						}
+					}
+				}
+			case 10:
+				// a field with a default value is set to null afterwards
+				if len(userIDs) > 0 {
+					f := "nick"
+					if st.C&1 == 1 {
+						f = "level"
+					}
+					q = fmt.Sprintf(`mutation { update_User(docID: %q, input: {%s: null}) { _docID } }`, userIDs[mod(st.B, len(userIDs))], f)
 				}
 			case 0:
 				if len(userIDs) > 0 {
@@ -323,9 +449,34 @@ func runC18(p *Plan, res *Result) {
 	}
 	mapping := map[string]string{}
 	for _, docs := range exported {
+		newIDs := map[string]bool{}
 		for _, d := range docs {
 			mapping[fmt.Sprint(d["_docID"])] = fmt.Sprint(d["_docIDNew"])
+			if newIDs[fmt.Sprint(d["_docIDNew"])] {
+				ctxTag = "/equal-content"
+			}
+			newIDs[fmt.Sprint(d["_docIDNew"])] = true
 		}
+	}
+	for _, docs := range exported {
+		for _, d := range docs {
+			n := 0
+			for f, v := range d {
+				if strings.HasSuffix(f, "_id") && v != nil && fmt.Sprint(v) == fmt.Sprint(d["_docIDNew"]) {
+					n++
+				}
+			}
+			if n > 1 {
+				orderDependent = true
+			}
+		}
+	}
+	if c18HasCycle(srcRows) {
+		ctxTag = "/with-reference-cycle"
+		res.Stats["reference_cycles"]++
+	}
+	if ctxTag == "/equal-content" {
+		res.Stats["documents_with_equal_content"]++
 	}
 	// fidelity oracle, applied to a node after a successful import
 	fidelity := func(n *SimNode, when string) bool {
@@ -535,6 +686,28 @@ func runC18(p *Plan, res *Result) {
 			continue
 		}
 		d, derr := fullDump(dst.n, true)
+		if orderDependent && derr == nil {
+			// the import sets the self references of a document one update after the other in the order of a Go
+			// map: with two of them the commits of two complete imports differ; the documents do not
+			d1c, dc := map[string]string{}, map[string]string{}
+			for k, v := range d1 {
+				if k != "commits" && k != "heads" {
+					d1c[k] = v
+				}
+			}
+			for k, v := range d {
+				if k != "commits" && k != "heads" {
+					dc[k] = v
+				}
+			}
+			if diffDump(d1c, dc) == "" {
+				res.Stats["imports_compared_without_commit_history"]++
+				if !restore() {
+					return
+				}
+				continue
+			}
+		}
 		if derr != nil || diffDump(d1, d) != "" {
 			res.violate("C18", "import-partial-success", "import-partial-success/"+cls, si, "import reported success (fault %s on %q fired=%v) but the target differs from a complete import: %s %v", site.Kind, site.Key, fired, diffDump(d1, d), derr)
 			return
